@@ -44,7 +44,7 @@ The change should look like something a maintainer could plausibly write (a refa
 something specific to manifest (a particular shape, size, name, order, fault or interleaving) - not something the existing tests expose.
 {race}
 Also write a demonstration: a Go test file in the worktree (e.g. {wt}/test/zz_demo_test.go or next to the changed package) that FAILS
-with your change and PASSES on the unchanged code. Verify both: use `git stash` to check the unchanged behaviour, then `git stash pop`.
+with your change and PASSES on the unchanged code. Verify both: to check the unchanged behaviour save your change with `git diff > /tmp/<unique>.diff`, revert it with `git checkout -- <files>`, run the demo, then re-apply it with `git apply` (do NOT use `git stash`: the stash is shared by all worktrees of the repository and other agents are working in sibling worktrees).
 Useful pieces: a memstore-backed `cidlink.DefaultLinkSystem()` (github.com/ipld/go-ipld-prime/storage/memstore), `unixfsnode.Reify`,
 `unixfsnode.AddUnixFSReificationToLinkSystem`, the builders in data/builder, `builder.DefaultLinksPerBlock` (a package variable: small
 values give deep file trees from small inputs), chunker strings like "size-4".
